@@ -85,6 +85,9 @@ class Oracle:
         if name in ("watchdog",):
             return None
         dttl = int(self.cfg.get("ttl_ms", 0))
+        if len(a) > 2 and self.cfg.get("cdm") == a[2] and "cttl_ms" in self.cfg:
+            dttl = int(self.cfg["cttl_ms"])          # this DMap has its own default TTL
+            self.hit("custom_dmap_ttl")
         if name == "c.put":
             path, m, dm, key, val = a[0], a[1], a[2], a[3], a[4]
             opts = a[5:]
@@ -299,9 +302,11 @@ class Gen:
         tsize = r.choice([512, 512, 4096, 1 << 20])
         # small tables + few partitions: fragments span several tables, keys live in older tables
         parts = r.choice([3, 3, 7]) if tsize == 512 else r.choice([7, 23])
-        yield "c.new n=%d r=%d w=%d rq=%d parts=%d tsize=%d rr=%d ttl_ms=%d" % (
-            n, R, W, RQ, parts, tsize, r.choice([0, 0, 1]), ttl)
         dms = getattr(self, "dms", ["dm", "dm2"])
+        # one DMap may have its own default TTL (config.DMaps.Custom)
+        custom = " cdm=%s cttl_ms=%d" % (dms[-1], r.choice([0, 1500, 3000])) if r.random() < 0.3 else ""
+        yield "c.new n=%d r=%d w=%d rq=%d parts=%d tsize=%d rr=%d ttl_ms=%d%s" % (
+            n, R, W, RQ, parts, tsize, r.choice([0, 0, 1]), ttl, custom)
         keys = getattr(self, "keyset", None) or [b"k%d" % i for i in range(r.choice([2, 4, 8]))]
         pdestroy = getattr(self, "pdestroy", 0.005)
         ver = 0
@@ -436,5 +441,5 @@ class Gen:
                 yield self.tick()
 
 
-REQUIRED_SHAPES = ["pipeline_multi", "pipeline_two_getputs", "incr_decr", "getput", "lock_acquired", "lock_contended", "wrong_token", "mirror_checked", "put_cond_and_ttl", "expire_present", "multi_key_delete", "read_after_expiry",
+REQUIRED_SHAPES = ["custom_dmap_ttl", "pipeline_multi", "pipeline_two_getputs", "incr_decr", "getput", "lock_acquired", "lock_contended", "wrong_token", "mirror_checked", "put_cond_and_ttl", "expire_present", "multi_key_delete", "read_after_expiry",
                    "read_from_non_owner"]
